@@ -136,6 +136,18 @@ add('C06', 'model_checking',
     'sound for the BFS alphabet (no valid signatures, op count far from 201).',
     'explicit-state breadth-first search over the real interpreter with hook-free state extraction, plus bounded exhaustive program enumeration against a reference interpreter')
 
+add('C07', 'fault_enumeration',
+    'Exhaustive fault enumeration against the oracle "returns or raises a bitcoin.core.ValidationError": every byte string of length '
+    '<=2 (and length 3 over a 52-byte alphabet; length 4 in thorough) as scriptPubKey, as scriptSig and as P2SH redeem script under '
+    '4 flag sets; every truncation and every single-byte substitution (14 values) of ~1,400 corpus scripts (repository vectors + '
+    'templates); scripts of 9999/10000/10001 bytes for every fill byte and two-byte period; item producers x counts around 1000 x '
+    'failing operations (captured error state within limits); every prefix and every single-byte substitution of a valid '
+    'signature, every prefix byte / truncation / substitution of 33- and 65-byte keys in CHECKSIG and CHECKMULTISIG; immutable '
+    'and mutable transactions with 1..3 inputs and indices 0..len(vin)+1. After every case every transaction handed in is compared '
+    'with its baseline snapshot (serialisation, fields, object identities).',
+    'DESIGN.md 3 C07', 'No reference semantics needed. A dying worker (OpenSSL via ctypes) is attributed through the published current case.',
+    'exhaustive fault enumeration (all short inputs, all single truncations/substitutions) with a containment oracle')
+
 NOT_YET = 'check not yet built in this revision of /verif (planned, see DESIGN.md section 3)'
 
 
